@@ -405,6 +405,34 @@ def run_nonstring(ns, res, spec):
             res.violation('delimiter-in-nonstring-field-silent', 'py: %r written under %s %r without the separator warning (%r)' % (table, policy, dlm, wwarn), {'table': table, 'policy': policy, 'dlm': dlm, 'engine': 'py', 'leg': 'nonstring'})
         if werr is None and not lossy and got:
             res.violation('spurious-separator-warning', 'py: %r written under %s %r warned although no field holds the separator (%r)' % (table, policy, dlm, wwarn), {'table': table, 'policy': policy, 'dlm': dlm, 'engine': 'py', 'leg': 'nonstring'})
+    # quoted policies: a value that is not a string when it reaches the writer (a number, a tuple, a dict, a date) is a field like any other -
+    # if its text holds the delimiter or a quote it is quoted, and the file reads back as the texts
+    import datetime
+    import decimal
+    qvalues = [-5, 2.5, -0.25, 1e-07, 1e21, True, None, (1, 2), ('a', 'b"c'), {'k': 1}, {'a': 'x, y'}, datetime.datetime(2020, 1, 2, 3, 4, 5), datetime.date(2021, 12, 31), decimal.Decimal('1.50'),
+               frozenset(['q']), 7, 'plain', 'x-y', [1, 2], [(1, 2), 'z'], range(3), b'by,tes', complex(1, -2)]
+    for _ in range(spec['n']):
+        policy = rng.choice(['quoted', 'quoted_rfc'])
+        dlm = rng.choice([',', '.', '-', 'e-', ' ', ':', ', ', '(', "'", '1'])
+        table = [[rng.choice(qvalues) for _j in range(rng.randrange(1, 4))] for _i in range(rng.randrange(1, 4))]
+        if any(v is None for r in table for v in r) and rng.random() < 0.7:
+            table = [[(0 if v is None else v) for v in r] for r in table]
+        sub = '|' if dlm != '|' else ';'
+        txt = lambda v: '' if v is None else (sub.join(txt(x) for x in v) if isinstance(v, list) else str(v))
+        exp = [[txt(v) for v in r] for r in table]
+        payload, wwarn, werr = write_real(ns, [list(r) for r in table], dlm, policy, None, '\n')
+        res.evaluations += 1
+        res.count('nonstring_quoted_roundtrips')
+        res.nontrivial('nonstring-quoted', repr(table), policy, dlm)
+        case = {'table': repr(table), 'policy': policy, 'dlm': dlm, 'engine': 'py', 'leg': 'nonstring-quoted'}
+        if werr is not None:
+            res.violation('nonstring-quoted-write-failed', 'py: %r under %s %r: the writer raised %s' % (table, policy, dlm, werr), case)
+            continue
+        recs, rwarn, rerr = read_real(ns, payload, dlm, policy, None)
+        if rerr is not None or recs != exp:
+            res.violation('nonstring-quoted-roundtrip-differs', 'py: values %r written under %s %r as %r read back as %r (error %r) ; expected the texts %r' % (table, policy, dlm, payload, recs, rerr, exp), case)
+        elif [k for k in util.warning_kinds(rwarn or []) if k != 'fields'] or [k for k in util.warning_kinds(wwarn or []) if k != 'none']:
+            res.violation('nonstring-quoted-roundtrip-warns', 'py: values %r under %s %r: warnings %r / %r' % (table, policy, dlm, wwarn, rwarn), case)
     node = bridge.Node.start()
     if node is None:
         res.notes.append('js non-string leg: unavailable (no node)')
@@ -456,9 +484,9 @@ def run_shard(spec, res):
 
 def summarize(tier, seed, m):
     return {
-        'rule': 'exhaustive small tables (1x1 with fields up to length %d, 1x2 / 2x1 up to length 2, 2x2 and ragged up to length 1) over {quote, space, tab, CR, LF, a, e-acute, delimiter characters} for each of %d dialects (policies simple/quoted/quoted_rfc x delimiters %r, whitespace, monocolumn) x line separators x encodings {None, utf-8, latin-1}; random larger tables incl. None cells; a table holding all 256 latin-1 code points; file-to-file leg through query_csv; JS writer/reader leg. Representability decided by the reference writer/reader pair. JS: tables of 4097-9000 short records (thousands per stream chunk) written and read back by the bulk and the stream reader; distinct_nontrivial = distinct representable (table, dialect) cases containing at least one special character.' % (3 if tier == 'quick' else 4, len(dialects()), DELIMS),
+        'rule': 'exhaustive small tables (1x1 with fields up to length %d, 1x2 / 2x1 up to length 2, 2x2 and ragged up to length 1) over {quote, space, tab, CR, LF, a, e-acute, delimiter characters} for each of %d dialects (policies simple/quoted/quoted_rfc x delimiters %r, whitespace, monocolumn) x line separators x encodings {None, utf-8, latin-1}; random larger tables incl. None cells; a table holding all 256 latin-1 code points; file-to-file leg through query_csv; JS writer/reader leg. Representability decided by the reference writer/reader pair. JS: tables of 4097-9000 short records (thousands per stream chunk) written and read back by the bulk and the stream reader; py: values that are not strings when they reach the writer (numbers, tuples, dicts, dates, decimals, bytes, ranges, nested lists) under the quoted policies with delimiters that occur in their text - the file reads back as the texts; distinct_nontrivial = distinct representable (table, dialect) cases containing at least one special character.' % (3 if tier == 'quick' else 4, len(dialects()), DELIMS),
         'exhaustive': True,
-        'required': ['js_long_narrow_tables', 'nonstring_delimiter_clause_checks', 'js_nonstring_delimiter_clause_checks', 'header_delimiter_clause_checks', 'js_stream_roundtrips', 'representable_roundtrips', 'delimiter_clause_checks', 'none_clause_checks', 'file_to_file_runs', 'latin1_all_byte_tables'],
+        'required': ['nonstring_quoted_roundtrips', 'js_long_narrow_tables', 'nonstring_delimiter_clause_checks', 'js_nonstring_delimiter_clause_checks', 'header_delimiter_clause_checks', 'js_stream_roundtrips', 'representable_roundtrips', 'delimiter_clause_checks', 'none_clause_checks', 'file_to_file_runs', 'latin1_all_byte_tables'],
         'assumptions': ['rv.model.refcsv write_table/read_text decide representability exactly as the quantifier prescribes'],
     }
 
